@@ -170,10 +170,33 @@ Fixpoint insert_sorted (x : list byte) (l : list (list byte)) : list (list byte)
   | y :: l' => if bytes_leb x y then x :: y :: l' else y :: insert_sorted x l'
   end.
 Definition sort_elems (l : list (list byte)) : list (list byte) := fold_right insert_sorted [] l.
+(** the same insertion sort for any comparison: stable (an element is inserted in front of the first
+    one it is not greater than, so it never passes an element it ties with that came before it in
+    the input order of later insertions) *)
+Fixpoint insert_by (leb : list byte -> list byte -> bool) (x : list byte) (l : list (list byte)) : list (list byte) :=
+  match l with
+  | [] => [x]
+  | y :: l' => if leb x y then x :: y :: l' else y :: insert_by leb x l'
+  end.
+Definition sort_by (leb : list byte -> list byte -> bool) (l : list (list byte)) : list (list byte) :=
+  fold_right (insert_by leb) [] l.
+(** a key on which many elements tie: the first byte modulo 4 (0 for an empty element) *)
+Definition key4 (a : list byte) : N := match a with [] => 0 | x :: _ => Byte.to_N x mod 4 end.
+Definition key4_leb (a b : list byte) : bool := key4 a <=? key4 b.
 Definition sort (p : params) (buf : list byte) : list byte * outcome unit :=
   match visible p buf with
   | Ok xs =>
       match write_at buf (data_start p) (concat (sort_elems xs)) with
+      | Some b => (b, Ok tt)
+      | None => (buf, Panic)
+      end
+  | Err e => (buf, Err e)
+  | Panic => (buf, Panic)
+  end.
+Definition sort_with (leb : list byte -> list byte -> bool) (p : params) (buf : list byte) : list byte * outcome unit :=
+  match visible p buf with
+  | Ok xs =>
+      match write_at buf (data_start p) (concat (sort_by leb xs)) with
       | Some b => (b, Ok tt)
       | None => (buf, Panic)
       end
@@ -192,4 +215,5 @@ Inductive op :=
 | LPush (item : list byte)
 | LRemove (index : N)
 | LSet (index : N) (item : list byte)
-| LSort.
+| LSort
+| LSortKey.        (* slice::sort_by through DerefMut with a comparator that ties: must be stable *)
